@@ -13,7 +13,7 @@ from .. import windows, model, progs
 
 rs = bootstrap()
 
-PREDS = ['div:%d', 'divt:%d', 'divs:%d', 'divbig:%d', 'divpar:%d', 'divhuge:%d', 'divf:%d', 'divnp:%d', 'divnpf:%d', 'divbool:%d', 'divcent:%d', 'divnone:%d', 'divnan:%d', 'divobj:%d', 'divobjt:%d', 'divtag:%d', 'divcls:%d', 'divsloppy:%d']
+PREDS = ['div:%d', 'divt:%d', 'divs:%d', 'divbig:%d', 'divpar:%d', 'divhuge:%d', 'divf:%d', 'divnp:%d', 'divnpf:%d', 'divbool:%d', 'divcent:%d', 'divnone:%d', 'divnan:%d', 'divnant:%d', 'divobj:%d', 'divobjt:%d', 'divtag:%d', 'divcls:%d', 'divsloppy:%d']
 
 
 def expected_segments(xs, pred):
@@ -53,7 +53,7 @@ class C06(Check):
     RULE += PRELUDE_RULE
     ASSUMPTIONS = ['predicate values are compared with != only (no hashing)']
     ANCHORS = ['rxsci/data/split.py', 'rxsci/operators/multiplex.py']
-    REQUIRED_TAGS = ['consumer-runs-a-pipeline-built-with-the-same-operator-object', 'top', 'group', 'roll', 'roll_eq', 'split', 'pred=divt', 'pred=divs', 'pred=divbig', 'pred=divhuge', 'pred=divnp', 'pred=divbool', 'pred=divnone', 'pred=divnan', 'pred=divobj', 'pred=divobjt', 'pred=divtag', 'pred=divcls', 'pred=divsloppy', 'single-run', 'runs-of-1', 'empty-key'] + ['operator-object-used-in-two-pipelines'] + ['history-fed-more-than-the-judged-stream'] + PRELUDE_TAGS + ['prelude:overlap']
+    REQUIRED_TAGS = ['consumer-runs-a-pipeline-built-with-the-same-operator-object', 'top', 'group', 'roll', 'roll_eq', 'split', 'pred=divt', 'pred=divs', 'pred=divbig', 'pred=divhuge', 'pred=divnp', 'pred=divbool', 'pred=divnone', 'pred=divnan', 'pred=divnant', 'pred=divobj', 'pred=divobjt', 'pred=divtag', 'pred=divcls', 'pred=divsloppy', 'single-run', 'runs-of-1', 'empty-key'] + ['operator-object-used-in-two-pipelines'] + ['history-fed-more-than-the-judged-stream'] + PRELUDE_TAGS + ['prelude:overlap']
     REQUIRED_OBSERVED = ['child_lifetimes_checked', 'parent_lifetimes_checked']
 
     def generate(self, rng, tier, shard, nshards):
